@@ -52,6 +52,7 @@ func opString(o Op) string {
 type caseInput struct {
 	Profile  string   `json:"profile"`
 	Ops      []string `json:"ops"`
+	Premises bool     `json:"premises_of_the_theorem_hold"`
 	KfKey    string   `json:"kf_key,omitempty"`
 	GoDiff   []string `json:"fresh_cluster_diff,omitempty"`
 	WeakDiff []string `json:"diff_after_each_object_delivered_once,omitempty"`
@@ -69,10 +70,7 @@ type result struct {
 var interesting = []string{"br:UpdateNode:providerID-changed", "br:UpdateNode:joins-claim-entry", "br:DeleteNode:claim-keeps-entry",
 	"br:UpdateNodeClaim:carries-over-pods", "br:UpdateNodeClaim:providerID-changed", "br:DeleteNodeClaim:node-keeps-entry",
 	"br:UpdatePod:moved-cleans-old-node", "br:UpdatePod:node-not-found", "br:DeletePod:cleans-node", "br:UpdatePod:terminal-cleans-node",
-	"br:Mark:hit", "br:PodCompletion:node-gone"}
-
-// profiles whose closing observation is checked against the recomputation (oracle)
-var oracleProfiles = map[string]bool{"wellformed": true, "samenode": true, "nodeloss": true, "untracked": true}
+	"br:Mark:hit", "br:PodCompletion:node-gone", "br:UpdatePod:pending-but-binding-known"}
 
 func profileOf(name string) profile {
 	switch name {
@@ -92,46 +90,17 @@ func profileOf(name string) profile {
 	return profile{}
 }
 
-// classify maps a divergence to the key of the finding whose exact shape it has ("" = not a known shape).
-func classify(prof string, diffs []string, w *world) string {
-	if len(diffs) == 0 {
-		return ""
-	}
-	cats := categories(diffs)
-	within := func(allowed ...string) bool {
-		for _, c := range cats {
-			ok := false
-			for _, a := range allowed {
-				ok = ok || a == c
-			}
-			if !ok {
-				return false
-			}
-		}
-		return true
-	}
-	switch prof {
-	case "untracked":
-		if within("bindings", "anti-affinity") {
-			return "stale-binding-after-pod-recreated-unbound"
-		}
-	case "nodeloss":
-		if within("pod-requests", "daemonset-requests", "disruption-cost", "host-ports", "volume-usage", "bindings", "anti-affinity") {
-			return "stale-aggregates-on-claim-only-node"
-		}
-	}
-	return ""
-}
-
 func runHistory(seed uint64, profName string, script func(g *gen)) (res result) {
 	r := kit.NewRand(seed)
 	counts := map[string]int{}
 	g := &gen{r: r, w: newWorld(), prof: profileOf(profName), dirty: map[string]bool{}, ever: map[string]bool{}, bound: map[string]bool{},
-		count: func(k string) { counts[k]++ }, nNodes: r.Range(2, 4), nClaims: r.Range(1, 3), nPods: r.Range(2, 6)}
+		count: func(k string) { counts[k]++ }, nNodes: r.Range(2, 4), nClaims: r.Range(1, 3), nPods: r.Range(2, 6),
+		histOK: true, roundStart: -1}
 	res.counts = counts
 	res.input.Profile = profName
 	counts["profile:"+profName]++
 	var fresh []string
+	premises := false
 	panicked, msg := kit.Recover(func() {
 		if script != nil {
 			script(g)
@@ -145,17 +114,21 @@ func runHistory(seed uint64, profName string, script func(g *gen)) (res result) 
 		g.observe("history")
 		g.weakClose()
 		g.observe("each-delivered-once")
-		fc, fd := g.w.fresh(markedIDs(g.w))
+		_, fd := g.w.fresh(markedIDs(g.w))
 		res.input.WeakDiff = diffDumps(g.w.cluster.VerifC11Dump(), fd)
-		_ = fc
+		// the premises of quiescent_equals_fresh, evaluated where the closing round starts
+		premises = g.histOK && g.podsSettled()
 		g.fullRound()
-		fc, fd = g.w.fresh(markedIDs(g.w))
+		fc, fd := g.w.fresh(markedIDs(g.w))
 		fresh = diffDumps(g.w.cluster.VerifC11Dump(), fd)
-		fresh = append(fresh, poolStateDiff(g.w.cluster, fc, []string{"pa", "pb"})...)
+		if !g.prof.Relabel {
+			// NodePoolState is outside the Coq model; a nodepool label that changes leaves the claim in its old pool's sets
+			fresh = append(fresh, poolStateDiff(g.w.cluster, fc, []string{"pa", "pb"})...)
+		}
 		if a, b := antiAffinityView(g.w.cluster), antiAffinityView(fc); strings.Join(a, ",") != strings.Join(b, ",") {
 			fresh = append(fresh, fmt.Sprintf("anti-affinity: cached=%v fresh=%v", a, b))
 		}
-		if oracleProfiles[profName] {
+		if premises {
 			g.observe("final")
 		} else {
 			g.observe("closing")
@@ -163,6 +136,7 @@ func runHistory(seed uint64, profName string, script func(g *gen)) (res result) 
 	})
 	if panicked {
 		g.ops = append(g.ops, Op{Kind: "Panic"})
+		g.roundStart = -1
 		res.input.Panic = msg
 		counts["outcome:panic"]++
 	}
@@ -170,17 +144,28 @@ func runHistory(seed uint64, profName string, script func(g *gen)) (res result) 
 		counts["after-each-object-delivered-once:differs:"+c]++
 	}
 	res.input.GoDiff = fresh
-	if len(fresh) > 0 {
-		if oracleProfiles[profName] {
-			res.input.KfKey = classify(profName, fresh, g.w)
-			res.goFail = true
-			counts["outcome:differs-from-fresh"]++
-		} else {
-			counts["outcome:"+profName+":differs-from-fresh"]++
+	switch {
+	case panicked:
+	case !premises:
+		why := g.histWhy
+		if g.histOK {
+			why = "pod-bound-to-untracked-node"
 		}
-	} else if !panicked {
+		counts["premises:false:"+why]++
+		if len(fresh) > 0 {
+			counts["outcome:outside-premises:differs-from-fresh"]++
+		} else {
+			counts["outcome:outside-premises:equals-fresh"]++
+		}
+	case len(fresh) > 0:
+		res.goFail = true
+		counts["premises:true"]++
+		counts["outcome:differs-from-fresh"]++
+	default:
+		counts["premises:true"]++
 		counts["outcome:equals-fresh"]++
 	}
+	res.input.Premises = premises
 	for _, o := range g.ops {
 		res.input.Ops = append(res.input.Ops, opString(o))
 	}
@@ -190,10 +175,10 @@ func runHistory(seed uint64, profName string, script func(g *gen)) (res result) 
 			hit++
 		}
 	}
-	if hit >= 2 {
+	if hit >= 2 && premises {
 		res.key = fmt.Sprintf("%x", sha1.Sum([]byte(strings.Join(res.input.Ops, ";"))))
 	}
-	res.gallina = gCase(g.ops)
+	res.gallina = gCase(g.ops, g.roundStart, g.roundEnd)
 	return
 }
 
@@ -257,7 +242,7 @@ func main() {
 			}
 		}
 		if r.goFail {
-			c.Fail(id, "cache differs from a fresh real Cluster fed the final API state: "+strings.Join(r.input.GoDiff, "; "), r.input.KfKey, r.input)
+			c.Fail(id, "cache differs from a fresh real Cluster fed the final API state although the premises hold: "+strings.Join(r.input.GoDiff, "; "), "", r.input)
 		}
 	}
 	var uncovered []string
@@ -269,12 +254,11 @@ func main() {
 	sort.Strings(uncovered)
 	c.Meta.Extra = map[string]interface{}{"uncovered_branches": uncovered,
 		"assumptions": []string{
-			"a provider id is never handed from one Node (NodeClaim) name to another (profile assume:pid-reuse explores it without oracle)",
-			"the nodepool label of a NodeClaim/Node does not change (assume:relabel)",
-			"a Node the cache tracks does not become untrackable (managed without providerID / without instance-type label) under the same name (assume:untrackable-after-tracked)",
-			"NodeClaim names are not re-used by an unlaunched claim before the deletion was observed",
-			"DaemonSet informer cache (GetDaemonSetPod), nomination, consolidation timestamps and NodePoolState internals are outside the model; NodePoolState counts are compared against the fresh real Cluster only"}}
-	c.Meta.Rule = fmt.Sprintf("%d generated histories (6-28 API/delivery ops over 2-4 nodes, 1-3 claims, 2-6 pods, then every changed key once, then a closing round over all keys in random order with duplicates) + %d assumption-breaking ones (model correspondence only) + corpus; non-trivial = at least two of the identity-changing / cross-object branches taken; distinct by op list", nGen, nAssume)
+			"hist_ok: provider ids stay unique; an id the cache associates with one Node (NodeClaim) name is not handed to another; a Node the cache tracks is not rewritten untrackable; a launched NodeClaim keeps its id (profiles assume:* break these on purpose: model correspondence only)",
+			"pods_settled: every bound non-terminal pod sits on a Node the cache can track (else the pod reconciler requeues forever: not quiescent); shown necessary by quiescent_equals_fresh_without_pods_settled_refuted",
+			"the nodepool label of a NodeClaim does not change (NodePoolState keeps the claim in its old pool's sets; NodePoolState is compared against the fresh real Cluster only)",
+			"DaemonSet informer cache (GetDaemonSetPod), nomination, consolidation timestamps, pod scheduling-time maps and NodePoolState internals are outside the model"}}
+	c.Meta.Rule = fmt.Sprintf("%d generated histories (6-28 API/delivery ops over 2-4 nodes, 1-3 claims, 2-6 pods, then every changed key once, then a closing round over all keys in random order with duplicates) + %d premise-breaking ones + corpus; the oracle applies where the premises of quiescent_equals_fresh hold (evaluated independently in Go on the real cache and in Coq on the model, and compared); non-trivial = premises hold and at least two of the identity-changing / cross-object branches taken; distinct by op list", nGen, nAssume)
 	c.Meta.Corr = []string{
 		"state.Cluster.{UpdateNode,DeleteNode} via informer.NodeController.Reconcile = C11.Model.deliver_node",
 		"state.Cluster.{UpdateNodeClaim,DeleteNodeClaim} via informer.NodeClaimController.Reconcile = C11.Model.deliver_claim",
